@@ -155,8 +155,10 @@ def _forked(self, body, work, W):
     tmpdir = tempfile.mkdtemp(prefix='mirsym-paths-')
     sys.stdout.flush()
     sys.stderr.flush()
-    base = Stats()
-    base.__dict__.update(self.stats.__dict__)
+    import multiprocessing as mp
+    q = mp.Queue()
+    idle = mp.Value('i', 0)
+    pending = mp.Value('i', 0)
     pids = []
     for w in range(W):
         pid = os.fork()
@@ -169,9 +171,37 @@ def _forked(self, body, work, W):
                 self.witness = {}
                 err = None
                 try:
-                    while mine:
+                    while True:
+                        if not mine:
+                            # out of work: take a donated alternative, or finish when every worker is idle and nothing is in flight
+                            with idle.get_lock():
+                                idle.value += 1
+                            got = None
+                            while got is None:
+                                try:
+                                    got = q.get(timeout=0.2)
+                                except Exception:
+                                    got = None
+                                if got is None:
+                                    if idle.value >= W and pending.value <= 0:
+                                        break
+                                    if self.deadline is not None and time.time() > self.deadline:
+                                        break
+                            if got is None:
+                                break
+                            with idle.get_lock():
+                                idle.value -= 1
+                            with pending.get_lock():
+                                pending.value -= 1
+                            mine.append((got, 0))
                         if self.deadline is not None and time.time() > self.deadline:
                             raise Inconclusive('wall-clock budget exhausted with %d paths pending' % len(mine))
+                        # somebody is idle: give away the oldest (shallowest, usually largest) pending alternative
+                        if len(mine) > 1 and idle.value > 0 and pending.value < W:
+                            donated = mine.pop(0)[0]
+                            with pending.get_lock():
+                                pending.value += 1
+                            q.put(tuple(donated))
                         prefix, keep = mine.pop()
                         self.pop_to(keep)
                         ctx = PathCtx(self, list(prefix), keep, mine)
